@@ -11,5 +11,5 @@ cd /verif
 for id in "$@"; do
   out=$(./check "$id" --tier "${TIER:-quick}" 2>&1); code=$?
   echo "== $id exit=$code"
-  echo "$out" | grep -E "^(VIOLATION|KNOWN-FINDING|HARNESS|C[0-9]+:)" | cut -c1-400 | head -8
+  echo "$out" | grep -E "^(VIOLATION|KNOWN-FINDING|HARNESS|REPLAY-WARNING|C[0-9]+:)" | cut -c1-400 | head -8
 done
